@@ -28,7 +28,7 @@ RULE = ("seeded datasets (0-4 dims; int/float/complex/bool/str variables on subs
 ASSUMPTIONS = [
     "netcdf4 and zarr are not importable here and are not exercised",
     "attribute equality is up to numpy-scalar/array vs python scalar/list spelling; str variables may come back as object dtype",
-    "'has an extension' means the name ends with one of the known engine extensions; names merely containing such a substring elsewhere are not generated",
+    "'has an extension' means the name ENDS with one of the known engine extensions; names and directories that merely contain such text elsewhere are generated and have none",
 ]
 SHARDS = {"quick": 6, "thorough": 16}
 MIN_REACH = {
@@ -43,6 +43,7 @@ MIN_REACH = {
     "listings_checked": {"quick": 500, "thorough": 8000},
     "harvester_name_checks": {"quick": 50, "thorough": 800},
     "harvester_deletes_with_backup": {"quick": 12, "thorough": 200},
+    "directories_whose_name_contains_an_extension": {"quick": 30, "thorough": 500},
     "harvesters_built_by_the_label_decorator": {"quick": 10, "thorough": 150},
     "loads_into_memory_asked_for_explicitly": {"quick": 30, "thorough": 500},
 }
@@ -69,7 +70,8 @@ def cases(ctx):
         for k in range(rng.randint(0, 4)):
             attrs["at%d" % k] = rng.choice([3, 2.5, "text", [1, 2, 3], None, True, False, "ndarray", -7, "", 1e-30])
         engine = rng.choice(["h5netcdf", "h5netcdf", "joblib"])
-        base = rng.choice(["data", "my_results", "run-3", "res.v2", "a b"])
+        # (also names that merely CONTAIN the text of an extension somewhere - they have none)
+        base = rng.choice(["data", "my_results", "run-3", "res.v2", "a b", "results.h5_backup", "scan.dmpx", "archive.h5files.v1"])
         named_ext = rng.random() < 0.5
         yield {"dims": dims, "sizes": sizes, "coordt": coordt, "vars": vs, "attrs": attrs, "engine": engine,
                "name": base + (EXT[engine] if named_ext else ""), "has_ext": named_ext,
@@ -150,7 +152,12 @@ def run_case(ctx, case):
     import xyzpy
     import xarray as xr
     engine = case["engine"]
-    tmp = ctx.mkdtemp("ds")
+    root = tmp = ctx.mkdtemp("ds")
+    if case["dseed"] % 6 == 5:
+        # a directory whose NAME contains the text of an extension: it says nothing about the file
+        tmp = os.path.join(root, "project.h5files")
+        os.makedirs(tmp)
+        ctx.count("directories_whose_name_contains_an_extension")
     path = os.path.join(tmp, case["name"])
     want_file = case["name"] if case["has_ext"] else case["name"] + EXT[engine]
     sig = {"api": case["mode"], "engine": engine, "has_ext": case["has_ext"]}
@@ -362,7 +369,7 @@ def run_case(ctx, case):
         sig.update(exc_sig(e))
     for o, msg in bad[:2]:
         ctx.violation(case, msg, dict(sig, oracle=o))
-    ctx.rmtree(tmp)
+    ctx.rmtree(root)
     ctx.observe(case, key=(case["dims"], case["sizes"], case["coordt"], [(v["dims"], v["dtype"], v["nan"]) for v in case["vars"]],
                            sorted(map(str, case["attrs"].items())), engine, case["name"], case["chunks"], case["mode"]),
                 nontrivial=any(v["dims"] for v in case["vars"]),
